@@ -148,6 +148,8 @@ impl GameSpy3 {
         let mut values: Vec<Vec<u8>> = Vec::new();
 
         let mut reached_expected_packets_size = false;
+        // Known once the packet flagged as last arrived (packets can arrive in any order)
+        let mut expected_packets: Option<usize> = None;
 
         while !reached_expected_packets_size {
             let received_data = self.receive(None, 0)?;
@@ -167,15 +169,23 @@ impl GameSpy3 {
             let packet_id = (id & 0x7f) as usize;
             buf.move_cursor(1)?; //unknown byte regarding packet no.
 
-            if is_last && packet_id + 1 != values.len() {
-                reached_expected_packets_size = true;
+            if is_last {
+                expected_packets = Some(packet_id + 1);
             }
 
             while values.len() <= packet_id {
                 values.push(Vec::new());
             }
 
+            if !values[packet_id].is_empty() {
+                return Err(PacketBad.context("Duplicated packet"));
+            }
+
             values[packet_id] = buf.remaining_bytes().to_vec();
+
+            if let Some(expected) = expected_packets {
+                reached_expected_packets_size = values.len() >= expected && !values.iter().any(Vec::is_empty);
+            }
         }
 
         if values.iter().any(Vec::is_empty) {
